@@ -7,4 +7,5 @@ let entries : (string * (byte list -> byte list)) list = [
   "render_model", render_model_line;
   "shape_model", shape_model_line;
   "recursion_model", recursion_model_line;
+  "formats_model", formats_model_line;
 ]
